@@ -183,7 +183,36 @@ func (c20) Decode(raw json.RawMessage) (any, error) {
 	return in, err
 }
 
-func (c20) Enumerate(tier string) []any { return nil }
+// Enumerate: every web suffix / sibling name of c20WebSuffix appended to the document paths (UI and spec) of default-ish
+// configurations and to their parents, for the spec middleware, the four UI flavours (with and without a next handler) and
+// the three API handlers.
+func (c20) Enumerate(tier string) []any {
+	var out []any
+	n := 0
+	for _, sfx := range c20WebSuffix {
+		for _, ext := range []func(string) string{func(t string) string { return t + sfx }, func(t string) string { return c20Sibling(t, sfx) }} {
+			n++
+			for fl := 0; fl < 4; fl++ {
+				in := c20In{Kind: "ui", Method: "GET", HasNext: (n+fl)%3 != 0, Flavour: fl, UBase: Bs([]string{"", "/api", "/"}[(n+fl)%3]), UPath: Bs([]string{"", "docs", "ui/redoc"}[n%3]), UTitle: "t"}
+				in.Req = Bs(ext(c20UITarget(in)))
+				out = append(out, in)
+			}
+			sp := c20In{Kind: "spec", Method: "GET", HasNext: n%3 != 0, B: `{"swagger":"2.0"}`, Base: Bs([]string{"", "/api", "/"}[n%3])}
+			sp.Req = Bs(ext(path.Join(c20OrDefault(string(sp.Base), "/"), "swagger.json")))
+			out = append(out, sp)
+			for fl := 0; fl < 3; fl++ {
+				in := c20In{Kind: "api", Method: "GET", Flavour: fl, CtxBase: Bs([]string{"", "/api", "/api/v1"}[(n+fl)%3]), SpecTitle: "t"}
+				if n%2 == 0 {
+					in.HasOSpecURL, in.USpecURL = true, Bs([]string{"/spec/openapi.json", "/swagger.json"}[(n/2)%2])
+				}
+				ui, spec := c20APITargets(in)
+				in.Req = Bs(ext([]string{ui, spec}[(n+fl)%2]))
+				out = append(out, in)
+			}
+		}
+	}
+	return out
+}
 
 // ---------- generators ----------
 var c20Pieces = []string{"/", "/", "/", ".", "..", "a", "b", "docs", "swagger.json", "api", "%2F", "\x00", "\xc3\xa9", " ", "...", ".a", "a.", "//", "/./", "/../"}
@@ -200,13 +229,40 @@ func c20Pick(r *rand.Rand, xs ...string) string { return xs[r.Intn(len(xs))] }
 
 var c20Methods = []string{"GET", "GET", "GET", "HEAD", "POST", "PUT", "DELETE", "OPTIONS", "PATCH"}
 
+// c20WebSuffix: index documents, the usual names of specification documents and of the assets of the documentation UIs,
+// common extensions - what gets appended to (or sits next to) a document path on a web server.
+var c20WebSuffix = []string{"/index.html", "/index.htm", "/index", "/", "/index.html/", "/default.htm", "/index.php", "/index.json",
+	"/swagger.json", "/swagger.yaml", "/openapi.json", "/openapi.yaml", "/doc.json", "/api-docs", "/v2/api-docs", "/spec",
+	"/docs", "/ui", "/redoc", "/rapidoc", "/oauth2-callback", "/oauth2-redirect.html", "/favicon.ico", "/favicon-32x32.png", "/robots.txt",
+	"/swagger-ui.css", "/swagger-ui-bundle.js", "/swagger-ui-standalone-preset.js", "/redoc.standalone.js", "/rapidoc-min.js", "/static/index.html",
+	".html", ".htm", ".json", ".yaml", ".js", ".map", "index.html", "-ui", "~"}
+
+// c20Sibling: the suffix under the parent of the document path (/api/docs + /index.html = /api/index.html)
+func c20Sibling(target, sfx string) string {
+	parent := "/"
+	if i := strings.LastIndex(target, "/"); i > 0 {
+		parent = target[:i]
+	}
+	if strings.HasPrefix(sfx, "/") {
+		return strings.TrimSuffix(parent, "/") + sfx
+	}
+	return strings.TrimSuffix(parent, "/") + "/x" + sfx
+}
+
 // c20Req derives a request path from the path a middleware is configured on.
 func c20Req(r *rand.Rand, target string) string {
 	last := target
 	if i := strings.LastIndex(target, "/"); i >= 0 {
 		last = target[i+1:]
 	}
-	switch r.Intn(18) {
+	switch r.Intn(24) {
+	case 18, 19, 20: // an extension of the document path by something a web server, a browser or a documentation tool asks for
+		return target + c20WebSuffix[r.Intn(len(c20WebSuffix))]
+	case 21, 22: // the same next to the document, under its parent
+		return c20Sibling(target, c20WebSuffix[r.Intn(len(c20WebSuffix))])
+	case 23: // ... written with a trailing slash / dot segments / a doubled slash
+		p := target + c20WebSuffix[r.Intn(len(c20WebSuffix))]
+		return c20Pick(r, p+"/", p+"/.", "/."+p, strings.Replace(p, "/", "//", 1), p+"/x/..")
 	case 0, 1, 2, 3:
 		return target
 	case 4:
